@@ -142,13 +142,22 @@ func buildStack(layers []any, h http.Handler, tick time.Duration) http.Handler {
 			cur, err = cbreaker.New(cur, expr, cbreaker.FallbackDuration(time.Hour))
 		case "roundrobin", "rebalancer":
 			var rr *roundrobin.RoundRobin
-			rr, err = roundrobin.New(cur)
+			sticky := boolOr(l, "sticky", false) // session affinity on: the balancer adds its documented cookie
+			if sticky && name == "roundrobin" {
+				rr, err = roundrobin.New(cur, roundrobin.EnableStickySession(roundrobin.NewStickySession("oxysession")))
+			} else {
+				rr, err = roundrobin.New(cur)
+			}
 			if err != nil {
 				break
 			}
 			if name == "rebalancer" {
 				var rb *roundrobin.Rebalancer
-				rb, err = roundrobin.NewRebalancer(rr)
+				if sticky {
+					rb, err = roundrobin.NewRebalancer(rr, roundrobin.RebalancerStickySession(roundrobin.NewStickySession("oxysession")))
+				} else {
+					rb, err = roundrobin.NewRebalancer(rr)
+				}
 				if err == nil && !intervene {
 					err = rb.UpsertServer(mustParse("http://10.7.0.1:8080/base"))
 				}
@@ -197,9 +206,15 @@ type respView struct {
 	err    string
 }
 
+// the Cookie header the client sends with every request of the step ("" = none)
+var stackCookie string
+
 func doReq(url string, body string) respView {
 	req, _ := http.NewRequest(http.MethodPost, url+"/probe/path?q=1", strings.NewReader(body))
 	req.Header.Set("X-Req", "1")
+	if stackCookie != "" {
+		req.Header.Set("Cookie", stackCookie)
+	}
 	tr := &http.Transport{DisableKeepAlives: true}
 	resp, err := tr.RoundTrip(req)
 	if err != nil {
@@ -221,6 +236,7 @@ func runStack(sc Scenario, tr *Trace, seed int64) {
 		layers := list(st, "layers")
 		script := st["script"].(M)
 		traceSinkFails.Store(boolOr(st, "sinkfail", false))
+		stackCookie = strOr(st, "cookie", "")
 		// oracle: the bare handler on an identical server (or an identical in-memory recorder)
 		bareH := &stackHandler{script: script}
 		h := &stackHandler{script: script}
@@ -230,6 +246,9 @@ func runStack(sc Scenario, tr *Trace, seed int64) {
 			direct := func(hh http.Handler) respView {
 				req := httptest.NewRequest(http.MethodPost, "http://front.example.com/probe/path?q=1", strings.NewReader("12345"))
 				req.Header.Set("X-Req", "1")
+				if stackCookie != "" {
+					req.Header.Set("Cookie", stackCookie)
+				}
 				rec := httptest.NewRecorder()
 				v := respView{}
 				if sh, ok := hh.(*stackHandler); ok {
